@@ -458,7 +458,7 @@ class Daemon(object):
                     data = []
                     for call in vargs:
                         if not isinstance(call, (list, tuple)) or len(call) != 3:
-                            raise errors.ProtocolError("malformed batch call")
+                            raise TypeError("malformed batch call")
                         method, vargs, kwargs = call
                         _check_call_shape(method, vargs, kwargs)
                         method = _get_exposed_method(obj, method)
@@ -980,8 +980,10 @@ def _check_call_shape(method, vargs, kwargs):
     Anything else - a rebuilt Proxy in particular, which contacts its own daemon as soon as it is iterated - is refused
     before it is used.
     """
-    if not isinstance(method, str) or not isinstance(vargs, (list, tuple)) or not (kwargs is None or isinstance(kwargs, dict)):
-        raise errors.ProtocolError("malformed call: member name, arguments or keyword arguments of the wrong type")
+    if not isinstance(method, str):
+        raise AttributeError("attempt to access a member whose name is not text")
+    if not isinstance(vargs, (list, tuple)) or not (kwargs is None or isinstance(kwargs, dict)):
+        raise TypeError("malformed call: arguments or keyword arguments of the wrong type")
 
 
 def _encodable(text):
